@@ -162,6 +162,12 @@ STORED = [
                 "hint": None, "force": False, "validate": False},
                {"child": {"kind": "obj", "tree": {"cls": "Property", "kw": [["tag", {"s": "t"}], ["value", {"s": "v"}]]}},
                 "hint": None, "force": False, "validate": False}]},
+    {"enabled": True, "parent": {"cls": "Projection", "kw": [["id", {"s": "proj"}], ["presynaptic_population", {"s": "a"}],
+                                                             ["postsynaptic_population", {"s": "b"}], ["synapse", {"s": "s"}]]},
+     "calls": [{"child": {"kind": "obj", "tree": {"cls": "Connection", "kw": [["id", {"i": 0}], ["pre_cell_id", {"s": "Z"}], ["post_cell_id", {"s": "Y"}]]}},
+                "hint": None, "force": False, "validate": False},
+               {"child": {"kind": "obj", "tree": {"cls": "Connection", "kw": [["id", {"i": 0}], ["pre_cell_id", {"s": "Z"}], ["post_cell_id", {"s": "Y"}]]}},
+                "hint": None, "force": False, "validate": False}]},
 ]
 
 
@@ -185,11 +191,12 @@ def call_coq(call, r):
     if ch["kind"] == "cls" and ch["cls"] == "Cell":
         dis = None     # setup_nml_cell logs on its own
     return ("{| xc_child := %s; xc_hint := %s; xc_force := %s; xc_validate := %s; xc_vchild := %s; xc_vparent := %s;\n"
-            "   xc_cell := %s; xc_parent_after := %s;\n   xc_code := %s; xc_ret := %s; xc_warn := %s; xc_disabled := %s |}") % (
+            "   xc_cell := %s; xc_str := %s; xc_parent_after := %s;\n   xc_code := %s; xc_ret := %s; xc_warn := %s; xc_disabled := %s |}") % (
         child_coq(call, r), coq_opt(call["hint"], coq_str), supergen.b(call["force"]), supergen.b(call["validate"]),
         supergen.b(r.get("vchild", True)), supergen.b(r["vparent"]),
-        coq_opt(r.get("cell"), gdsgen.cobj), coq_opt(r["parent_after"], gdsgen.cobj), code_coq(r["code"]),
-        coq_opt(r.get("ret"), gdsgen.cobj),
+        coq_opt(r.get("cell"), gdsgen.cobj), supergen.b(r.get("str_ok", True)),
+        coq_list(["(%s, %s)" % (coq_str(n), gdsgen.cval(v)) for n, v in r["changed_fields"]]), code_coq(r["code"]),
+        coq_opt(r.get("ret") if ch["kind"] == "cls" else None, gdsgen.cobj),
         coq_list(["(%d%%nat, %s)" % (k, coq_str(m)) for k, m in r["warn"]]),
         "None" if dis is None else "(Some %d%%nat)" % dis)
 
@@ -276,6 +283,12 @@ def predicate(ck, sv, mir, case, res, enabled):
                         "although no unique member can be determined", expected="an exception, parent unchanged")
             continue
         target = S[0] if len(S) == 1 else hint
+        slot0 = field_of(before, target)
+        if (code not in (0, 4) and not r.get("str_ok", True) and not force and not r["changed"] and isinstance(slot0, dict)
+                and "l" in slot0 and r.get("child") in slot0["l"]):
+            bad("C10:duplicate-refusal-raises-from-__str__", "an equal child is already present; instead of the warning the "
+                "exception of the child's __str__ (%s) comes out of add()" % r.get("exc"), expected="a warning, no exception")
+            continue
         if code not in (0, 4) or (code == 4 and not (enabled and call["validate"])):
             bad(keyslip or "C10:raises-although-member-exists:%s:%s" % (parent_cls, child_cls),
                 "add(%s) to a %s raises (%s) although the schema declares member %s for it" % (child_cls, parent_cls, r.get("exc"), target),
@@ -450,6 +463,17 @@ def run(ck):
             continue
         predicate(ck, sv, mir, case, res, case["enabled"])
     coq_diff(ck, pairs, "Cases_C10", fixed=True)
+    debug(ck)
+
+
+def debug(ck):
+    if os.environ.get("VERIF_DEBUG"):
+        import sys
+        for o in ck.obligations:
+            if not o["ok"]:
+                print("BROKEN", o["name"], o["detail"][-1200:], file=sys.stderr)
+        for d in ck.disagreements[:8]:
+            print("DISAGREE", json.dumps(d)[:1500], file=sys.stderr)
 
 
 def replay(ck, data):
